@@ -306,10 +306,13 @@ func tokAlphabet(thorough bool) []tokT {
 	add("cut/15", cutOpaque(func(*tokCtx) int { return 15 }))
 	add("cut/16", cutOpaque(func(*tokCtx) int { return 16 })) // plaintext ""
 	add("cut/17", cutOpaque(func(*tokCtx) int { return 17 }))
-	add("cut/id", cutOpaque(func(c *tokCtx) int { return 16 + len(c.id) }))       // plaintext "<id>"
+	add("cut/id", cutOpaque(func(c *tokCtx) int { return 16 + len(c.id) }))           // plaintext "<id>"
 	add("cut/id-colon", cutOpaque(func(c *tokCtx) int { return 16 + len(c.id) + 1 })) // plaintext "<id>:"
 	add("cut/-1", cutOpaque(func(*tokCtx) int { return -1 }))
-	add("cut/iv-only-doubled", func(c *tokCtx) string { b := unb64(c.opq); return b64b(append(b[:min(16, len(b))], b[:min(16, len(b))]...)) })
+	add("cut/iv-only-doubled", func(c *tokCtx) string {
+		b := unb64(c.opq)
+		return b64b(append(b[:min(16, len(b))], b[:min(16, len(b))]...))
+	})
 	add("cut/body-appended", func(c *tokCtx) string { return b64b(append(unb64(c.opq), fill("prng-a", 16)...)) })
 
 	// --- mut/: surface mutations of the valid token
@@ -534,4 +537,26 @@ func tokIndex(T []tokT) map[string]*tokT {
 		m[T[i].name] = &T[i]
 	}
 	return m
+}
+
+// mediumTokens: the core alphabet plus every sealed, cut, segment-skeleton, JSON
+// serialisation and other-kind token (the families whose members take different
+// paths in the provider); used squared by the pair part in the thorough tier.
+func mediumTokens(T []tokT) []tokT {
+	var out []tokT
+	for _, x := range T {
+		fam := x.name
+		if i := strings.Index(fam, "/"); i >= 0 {
+			fam = fam[:i]
+		}
+		switch fam {
+		case "seal", "cut", "seg", "json", "kind", "reseal-valid":
+			out = append(out, x)
+		default:
+			if x.core {
+				out = append(out, x)
+			}
+		}
+	}
+	return out
 }
